@@ -140,7 +140,79 @@ fn decide(cx: &mut Ctx, family: &str, ph: bool, sig: &[u8; 64], msg: &[u8], pk: 
     cx.cover("negative_family", family);
 }
 
+/// honest key pairs whose *public key encoding* is structured (top or bottom bytes all ones / all zero, low byte in the
+/// range where a canonicity test looks), found by grinding seeds: a verifier that pre-screens the encoding byte-wise
+/// (canonical form, "looks small-order", "looks like the identity") can be wrong on keys that random seeds hit with
+/// probability 2^-15 .. 2^-19 each
+fn ground_keys(cx: &mut Ctx) {
+    use curve25519_dalek::edwards::EdwardsPoint;
+    use curve25519_dalek::scalar::Scalar;
+    let per_shard = cx.tier.pick(0usize, 250_000, 4_000_000);
+    let mut rng = cx.rng.fork(0xC06_0000 + cx.shard as u64);
+    let mut found: std::collections::HashMap<&'static str, usize> = std::collections::HashMap::new();
+    let mut seed: [u8; 32] = rng.arr();
+    for i in 0..per_shard {
+        // next seed: increment as a little-endian counter (cheap, distinct)
+        for b in seed.iter_mut() {
+            *b = b.wrapping_add(1);
+            if *b != 0 {
+                break;
+            }
+        }
+        let h = na::sha512(&seed);
+        let mut a: [u8; 32] = h[..32].try_into().unwrap();
+        a[0] &= 248;
+        a[31] &= 127;
+        a[31] |= 64;
+        let e = EdwardsPoint::mul_base(&Scalar::from_bytes_mod_order(a)).compress().to_bytes();
+        let class: Option<&'static str> = if e[31] & 0x7f == 0x7f && e[30] == 0xff {
+            Some(if e[0] >= 0xed { "top_15_bits_one,low_byte>=0xed" } else { "top_15_bits_one" })
+        } else if e[31] & 0x7f == 0 && e[30] == 0 {
+            Some("top_15_bits_zero")
+        } else if e[0] == 0 && e[1] == 0 {
+            Some("low_16_bits_zero")
+        } else if e[0] >= 0xed && e[1] == 0xff && e[2] & 0xf0 == 0xf0 {
+            Some("low_bytes_like_p")
+        } else {
+            None
+        };
+        let Some(class) = class else { continue };
+        let n = found.entry(class).or_insert(0);
+        *n += 1;
+        if *n > 24 {
+            continue;
+        }
+        // the reference must derive the same key, otherwise the grinder is wrong
+        let (npk, nsk) = na::sign_seed_keypair(&seed);
+        if npk != e {
+            cx.violation("HARNESS|C06|ground_key_differs_from_libsodium", json!({"seed":hx(&seed)}));
+            return;
+        }
+        cx.key(&format!("ground {} {}", class, i));
+        let (pk, sk) = crypto_sign_seed_keypair(&seed);
+        let c = || json!({"family":"ground_public_key","class":class,"seed":hx(&seed),"pk":hx(&e)});
+        expect_eq(cx, "C06|crypto_sign_seed_keypair|mismatch_vs_libsodium|ground_key", &[&pk[..], &sk[..]].concat(), &[&npk[..], &nsk[..]].concat(), c);
+        for mlen in [0usize, 1, 33] {
+            let msg = rng.bytes(mlen);
+            let want = na::sign_detached(&msg, &nsk);
+            let mut sig = stale_arr::<64>();
+            if call(cx, "C06|crypto_sign_detached", "crypto_sign_detached", c, || crypto_sign_detached(&mut sig, &msg, &sk)).is_some() {
+                expect_eq(cx, "C06|crypto_sign_detached|mismatch_vs_libsodium|ground_key", &sig, &want, c);
+            }
+            decide(cx, &format!("valid_pure|ground_key|{}", class), false, &want, &msg, &npk, false);
+            let want_ph = na::sign_ph_create(&msg, &nsk);
+            decide(cx, &format!("valid_prehashed|ground_key|{}", class), true, &want_ph, &msg, &npk, false);
+            let mut bad = want;
+            bad[rng.below(64)] ^= 1 << rng.below(8);
+            decide(cx, "sig_bit_flip|ground_key", false, &bad, &msg, &npk, true);
+        }
+        cx.cover("ground_public_key_class", class);
+    }
+    cx.note("ground_keys", json!({"seeds_tried_this_shard":per_shard,"found":found}));
+}
+
 pub fn run(cx: &mut Ctx) {
+    ground_keys(cx);
     let maxlen = cx.tier.pick(40usize, 300, 1100);
     let seeds_per_len = cx.tier.pick(1usize, 1, 12);
     let l: [u8; 32] = unhex(L_BYTES).try_into().unwrap();
@@ -192,6 +264,31 @@ pub fn run(cx: &mut Ctx) {
             }
             if let Some(Ok(s)) = call(cx, "C06|SigningKeyPair::sign_with_defaults", "SigningKeyPair::sign_with_defaults", case, || kp.sign_with_defaults(msg.clone())) {
                 expect_eq(cx, "C06|SigningKeyPair::sign_with_defaults|mismatch_vs_libsodium", &s.to_vec(), &na::sign(&msg, &nsk), case);
+            }
+            // key pair objects rebuilt from a 64-byte secret-key buffer whose second half is not (or not exactly) the public key
+            // of the seed in its first half: the seed decides; signatures are RFC 8032 for that seed and verify under the
+            // public key the object reports
+            for (variant, tail) in [("consistent", npk.to_vec()), ("zeros", vec![0u8; 32]), ("ff", vec![0xff; 32]), ("seed_repeated", seed.to_vec()), ("public_half_one_bit_flipped", { let mut t = npk.to_vec(); t[len % 32] ^= 1 << (len % 8); t })] {
+                if len % 4 != 0 && variant != "consistent" && variant != "public_half_one_bit_flipped" {
+                    continue;
+                }
+                let mut buf = seed.to_vec();
+                buf.extend_from_slice(&tail);
+                let c2 = || json!({"seed":hx(&seed),"secret_key_buffer_second_half":variant,"msglen":len});
+                let skb: StackByteArray<64> = StackByteArray::try_from(&buf[..]).unwrap();
+                let Some(kp2) = call(cx, "C06|SigningKeyPair::from_secret_key", "SigningKeyPair::from_secret_key", c2, || SigningKeyPair::<StackByteArray<32>, StackByteArray<64>>::from_secret_key(skb)) else { continue };
+                expect_eq(cx, &format!("C06|SigningKeyPair::from_secret_key|public_key_differs_from_libsodium|{}", variant), kp2.public_key.as_slice(), &npk, c2);
+                if let Some(Ok(s)) = call(cx, "C06|SigningKeyPair::sign", "SigningKeyPair::sign", c2, || kp2.sign::<StackByteArray<64>, Vec<u8>>(msg.clone())) {
+                    let (sg, _) = s.clone().into_parts();
+                    expect_eq(cx, &format!("C06|SigningKeyPair::from_secret_key+sign|signature_differs_from_rfc8032_for_the_seed|{}", variant), sg.as_slice(), &want, c2);
+                    expect(cx, &format!("C06|SigningKeyPair::from_secret_key+sign|signature_does_not_verify_under_reported_public_key|{}", variant), s.verify(&kp2.public_key).is_ok(), c2);
+                }
+                let mut signer = IncrementalSigner::new();
+                signer.update(&msg);
+                if let Some(Ok(sg)) = call(cx, "C06|IncrementalSigner::finalize", "IncrementalSigner::finalize", c2, || signer.finalize::<StackByteArray<64>, _>(&kp2.secret_key)) {
+                    expect(cx, &format!("C06|SigningKeyPair::from_secret_key+IncrementalSigner|signature_does_not_verify_under_reported_public_key|{}", variant), na::sign_ph_verify(sg.as_array(), &msg, kp2.public_key.as_array()), c2);
+                }
+                cx.cover("from_secret_key_buffer", variant);
             }
             // every produced signature verifies, under dryoc (all entry points) and under libsodium
             decide(cx, "valid_pure", false, &want, &msg, &npk, false);
